@@ -243,6 +243,24 @@ class SymArr(HeapObj):
         return f"<SymArr {self.name}:{self.ctype}{self.shape}>"
 
 
+class CTypeObj(HeapObj):
+    """a C type used as a value (fused-type dispatch: `if Integer is int8:`)"""
+    _interned = {}
+
+    def __init__(self, name):
+        super().__init__()
+        self.name = name
+
+    @classmethod
+    def get(cls, name):
+        if name not in cls._interned:
+            cls._interned[name] = CTypeObj(name)
+        return cls._interned[name]
+
+    def __repr__(self):
+        return f"<ctype {self.name}>"
+
+
 class Cell:
     """one-cell reference (`&x` out-parameter in .pyx)"""
     def __init__(self, env, name):
